@@ -130,6 +130,9 @@ class StoreMachine(Machine):
     def exc_key(self, what, e):
         return '-'
 
+    def after_write(self, name, cfg, want):
+        """Hook: independent scan of the files an acknowledged write produced."""
+
     def on_crash(self):
         """Process memory is gone; only the directory image survives."""
         self.objs = {}
@@ -157,6 +160,7 @@ class StoreMachine(Machine):
                 if touched:
                     r['state'] = 'superseded'
         if status == 'ok':
+            self.after_write(name, cfg, want)
             self.ref[name] = {'state': 'ack', 'snap': want, 'cfg': cfg, 'files': files}
             ctx.state_changes += 1
             for f in files:
